@@ -118,7 +118,8 @@ def all_dags_rules(rep, prog):
     rep.check("FILTER.candidates", ok, fwhere(f, apps[0].node if apps else None), "candidate = pdag.copy() with entries of undirected edges set to 0 (nothing added, directed part untouched)",
               "candidates are not `copy of pdag with undirected-edge entries cleared`: " + why)
     triv = [r for r in rets if r not in filt]
-    ok = len(triv) == 1 and triv[0].value == ("ext", "numpy.array", (("list", (("method", pd, "copy", (), ()),)),), ()) and \
+    ok = len(triv) == 1 and triv[0].value in (("ext", "numpy.array", (("list", (("method", pd, "copy", (), ()),)),), ()),
+                                               ("ext", "numpy.array", (("list", (pd,)),), ())) and \
         any(pol is True and npred(c, True)[0] in ("empty", "==0") for c, pol in triv[0].path)
     rep.check("FILTER.trivial", ok, fwhere(f, triv[0].node if triv else None), "without undirected edges the PDAG itself is the single candidate",
               "the no-undirected-edge case does not return [pdag.copy()]")
